@@ -60,6 +60,38 @@ mod verif_kani {
         kani::cover!(alpha < 1.0, "fractional 1/rate reachable");
     }
 
+    // Concrete probes (NOT a proof: 14 rates spread over the binades): n and alpha bit-for-bit against values computed offline with
+    // exact rational arithmetic (n = floor(1/rate) exactly, alpha = (n+1) - fl64(1/rate)).  Catches precision regressions of the
+    // division (e.g. a reciprocal taken in f32) that the structural per-binade facts above cannot see.
+    #[kani::proof]
+    #[kani::unwind(17)]
+    fn rate_to_n_alpha_probes() {
+        let probes: [(u32, u64, u64); 14] = [
+            (0x3ecccccd, 2, 0x3fe0000013fffffc),
+            (0x3e666666, 4, 0x3fe1c71c329161e0),
+            (0x3e99999a, 3, 0x3fe555559c71c6ec),
+            (0x3eaaaaab, 2, 0x3e77fffff4000000),
+            (0x3ac49ba6, 666, 0x3fd5556da38e3800),
+            (0x37fba882, 33333, 0x3fe54e6f61fd0000),
+            (0x3476f5eb, 4347826, 0x3febd5a593000000),
+            (0x33d6bf95, 9999999, 0x3fbdea99c8000000),
+            (0x337d6730, 16949152, 0x3feadc6780000000),
+            (0x2edbe6ff, 9999999866, 0x3fe0754c00000000),
+            (0x2d0775b8, 129870123805, 0x3fa8620000000000),
+            (0x276dca41, 303030310681403, 0x3fee000000000000),
+            (0x262cf030, 1666666601799113, 0x3fd0000000000000),
+            (0x29caa978, 11111110887804, 0x3fd4400000000000),
+        ];
+        let mut i = 0;
+        while i < probes.len() {
+            let (rate_bits, n_expected, alpha_bits) = probes[i];
+            let (n, alpha) = rate_to_n_alpha(f32::from_bits(rate_bits));
+            assert!(n == n_expected);
+            assert!(alpha.to_bits() == alpha_bits);
+            i += 1;
+        }
+    }
+
     // the decision, for EVERY rate and EVERY draw, against ANY (n, alpha) that rate_to_n_alpha may return
     // (modular: rate_to_n_alpha is replaced by a stub returning arbitrary values; its own contract is the
     // per-binade harnesses above):  weight = u64::MAX below the saturation threshold, else n if draw < alpha, else n+1.
